@@ -201,7 +201,7 @@ def outcome_overloads(vals):
 # (b) optimiser passes on generated kernel bodies
 # ---------------------------------------------------------------------------------------
 
-BODY_PROFILE = {"cells": ["interval", "triangle", "quadrilateral", "tetrahedron"], "measures": ["dx", "dx", "ds", "dS"], "maxdeg": 2,
+BODY_PROFILE = {"cells": ["interval", "triangle", "quadrilateral", "tetrahedron"], "measures": ["dx", "ds", "dS", "dS"], "arities": [0, 1, 2, 2], "maxdeg": 2,
                 "max_integrals": 2, "max_qdeg": 3, "depth": 1, "ncoef": (0, 2), "p_scheme": 0.0, "p_vertex": 0.0, "manifold": 0.1}
 MODES = ["none", "sections", "sections+loops", "licm-only", "full"]
 
@@ -328,7 +328,7 @@ def shard(shard, nshards, n_over, n_body, seed):
 
 def run(tier: str) -> int:
     run_ = Run(PROP, tier, "exploration", RULE)
-    n_over, n_body = (2, 4) if tier == "quick" else (40, 120)
+    n_over, n_body = (2, 6) if tier == "quick" else (40, 120)
     for part in run_shards(shard, 16, n_over=n_over, n_body=n_body, seed=verif_seed()):
         run_.merge(part)
     run_.extra["operand_kinds"] = len(lnstrategies.operand_kinds())
